@@ -98,6 +98,24 @@ def items(tier, seed):
         for side in ("left", "right"):
             for cmp_ in ("lt", "gt", "le", "ge"):
                 out.append({"k": "lt_same_unit_text", "sq": sq, "reg": reg, "side": side, "cmp": cmp_})
+    # conversions to / from the unit of the Unknown quantity type, from a KNOWN quantity type (only the Unknown quantity type itself is exempt)
+    for i, (a, ua, b, ub) in enumerate(pairs[:24 if tier == "quick" else 400]):
+        for kk in ("to_unknown_unit", "from_unknown_unit", "array_to_unknown_unit"):
+            out.append({"k": kk, "qa": a, "ua": ua, "qb": "Unknown", "ub": "<unknown>"})
+    # unit symbols of DIFFERENT quantity types that differ only in case (s / S, Pa / pA, h / H ...), every group of the table, every route
+    low = {}
+    for u, inf in db.unit_to_unit_info.items():
+        if inf.quantity_type in db.categories_to_quantity_types:
+            low.setdefault(u.lower(), []).append((u, inf.quantity_type))
+    for grp in low.values():
+        for (u1, q1) in grp:
+            for (u2, q2) in grp:
+                if q1 != q2:
+                    for kk in ("GetValue", "array_GetValues", "fixed_IndexAsScalar", "fixed_ChangingIndex", "db.Convert", "add", "CreateCopy"):
+                        out.append({"k": kk, "qa": q1, "ua": u1, "qb": q2, "ub": u2})
+    # history: a registration of the foreign unit under the operand's quantity type was REFUSED just before (the symbol exists elsewhere)
+    for i, (a, ua, b, ub) in enumerate(pairs[:40 if tier == "quick" else 600]):
+        out.append({"k": ("GetValue", "db.Convert", "construct", "array_GetValues")[i % 4], "qa": a, "ua": ua, "qb": b, "ub": ub, "rejected_addunit": True})
     for c in [c for c in out if c["k"] in ("d_add", "d_sub", "d_lt", "d_array_add")][::3]:
         c["np"] = True
     for k in ("exempt_empty", "exempt_number"):
@@ -176,7 +194,7 @@ def run(cfg, V):
             else:
                 r1, r2 = s + V["y"], V["y"] - s
             return {"exempt": True, "vals": (r1.GetValue(), r2.GetValue()), "units": (r1.GetUnit(), r2.GetUnit())}
-        reg0 = snap_registry(db)
+        reg0 = snap_registry(db)  # (taken BEFORE a refused registration of the history kinds, so that what it leaves behind shows)
         if k == "lt_same_unit_text":
             # a derived scalar whose unit TEXT coincides with a registered unit of another dimension: (m/s)*(m/s) shows 'm/s2'
             x, y = V["x"], V["y"]
@@ -212,6 +230,13 @@ def run(cfg, V):
             ua = db.GetInfo(qa, ua).unit
             a = Scalar(x, ua, qa)
             operands = [a]
+            if cfg.get("rejected_addunit"):
+                try:
+                    db.AddUnit(qa, "a second " + ub, db.GetInfo(qb, ub).unit, lambda t: t * 2.0, lambda t: t / 2.0)
+                    return {"first": {"raised": None, "returned": "AddUnit accepted a symbol that exists under another quantity type"}, "second": {}, "registry_same": False,
+                            "operands_same": True, "bat0": [], "bat1": []}
+                except RuntimeError:
+                    pass
             if k in ("add", "sub", "radd", "lt", "gt", "le"):
                 b = Scalar(y, db.GetInfo(qb, ub).unit, qb)
                 operands.append(b)
@@ -239,6 +264,22 @@ def run(cfg, V):
                 sq2 = Scalar(x, ua, qa) * Scalar(y, ua, qa)
                 operands = [sq2]
                 fn = lambda: sq2.GetValue([(db.GetInfo(qb, ub).unit, 2)])
+            elif k == "to_unknown_unit":
+                fn = lambda: (a.GetValue("<unknown>"), db.Convert(qa, ua, "<unknown>", x))
+            elif k == "from_unknown_unit":
+                fn = lambda: db.Convert(qa, "<unknown>", ua, x)
+            elif k == "array_to_unknown_unit":
+                aa = Array([x, y], ua, qa)
+                operands = [aa]
+                fn = lambda: aa.GetValues("<unknown>")
+            elif k == "fixed_IndexAsScalar":
+                fa_ = FixedArray(2, [x, y], ua, qa)
+                operands = [fa_]
+                fn = lambda: fa_.IndexAsScalar(0, ObtainQuantity(ub, qb))
+            elif k == "fixed_ChangingIndex":
+                fa_ = FixedArray(2, [x, y], ua, qa)
+                operands = [fa_]
+                fn = lambda: fa_.ChangingIndex(0, Scalar(y, ub, qb))
             elif k == "GetValue":
                 fn = lambda: a.GetValue(ub)
             elif k == "CreateCopy":
